@@ -867,6 +867,10 @@ def strip_prec(r):
     return re.sub(r'(A:[0-9a-f~]*:-?\d+/\d+):\d+:[01]', r'\1', r)
 
 
+def has_commodity_literal(e):
+    return any(s[0] == 'lit' and s[1].sym for s in subtrees(e))
+
+
 def has_small_amount_truth(e):
     """does the tree test the truth of an arithmetic result (display-zero can differ after re-lexing)"""
     for s in subtrees(e):
@@ -929,12 +933,33 @@ def process(ctx, res, rows, cat):
             if not same_value(iv, ir):
                 if 'tern' in ks or 'ifonly' in ks:
                     key = 'reparse:ternary'
-                elif 'small-truth' in cells:
+                elif 'small-truth' in cells or (has_small_amount_truth(e) and ({'*', '/'} & ks) and has_commodity_literal(e)):
                     key = 'reparse:display-zero-truth'
                 else:
                     key = 'reparse:%s' % cat
                 res.violations.append(dict(key=key, desc='%s prints as %s, which evaluates to %s instead of %s' % (c.text, ip, ir, iv),
                                            case=dict(expr=c.text, printed=ip, journal=ctx.journal_text), observed=ir, required=iv))
+
+
+def const_like(e):
+    """compiles to a constant: a literal, a signed literal, or a definition sequence ending in one"""
+    k = e[0]
+    if k in ('lit', 'bool'):
+        return True
+    if k in ('neg', 'not'):
+        return const_like(e[1])
+    if k == 'seq':
+        return all(s[0] in ('def', 'deffun') for s in e[1]) and const_like(e[2])
+    return False
+
+
+def folds_to_sequence(e):
+    """a call whose argument list is folded into one SEQUENCE constant by compile (all arguments
+    constant, at least one of them only after compilation): sequences are not modelled"""
+    for s in subtrees(e):
+        if s[0] == 'call' and len(s[2]) >= 2 and all(const_like(a) for a in s[2]) and any(a[0] == 'seq' for a in s[2]):
+            return True
+    return False
 
 
 def mk_case(rng, kind, ast, extra=0.0, tight=0.3):
@@ -992,7 +1017,7 @@ def run(ctx, n_override=None):
             depth = rng.choice([2, 3, 3, 4, 4, 5, 6, 7])
             t = gen_tree(rng, depth, syms, [], [], names, rng.choice(['num', 'num', 'bool']))
             cases.append(mk_case(rng, 'random', t, extra=rng.choice([0.0, 0.0, 0.1, 0.3]), tight=rng.choice([0.0, 0.3, 0.8])))
-        cases = [c for c in cases if len(c.text) < 3500]
+        cases = [c for c in cases if len(c.text) < 3500 and not folds_to_sequence(c.ast)]
         process(ctx, res, run_batch(ctx, res, journal, pool0, cases, 'r%d_' % bi), 'random')
         done += batch
         bi += 1
